@@ -171,6 +171,9 @@ pub fn run(ctx: Ctx) -> ! {
         runs.push(explore(&ctx, &base(3, 3), 9, true, 600_000, "3 peers, max_peers 3, gated, depth 9"));
         runs.push(explore(&ctx, &base(3, 2), 9, true, 600_000, "3 peers, max_peers 2, gated, depth 9"));
     }
+    // unsolicited interface events (a Disconnected / Error / Connected nobody asked for) with
+    // more known peers than slots: a peer that is tracked but in no set gets events too
+    runs.push(explore(&ctx, &base(3, 2), if ctx.thorough { 7 } else { 5 }, false, 3_000_000, "3 peers, max_peers 2, ungated (adversarial interface)"));
     // tighter limits: one warm slot, errors ban at once (exercises the limit and
     // error-threshold paths with fewer steps)
     let tight = Cfg { peers: 3, max_peers: 3, max_warm: 1, max_hot: 1, max_err: 0, leios: false };
